@@ -46,7 +46,8 @@ def concrete(letter):
 
 class Spec:
     def __init__(self, name, exe="exe0", N=2, retries=0, warmup=0, ign=False, exe_build=None, suite_build=None,
-                 suite=None, suite_loc="/x", adapter_ok=True, script=(), mode="k", exclusive=None):
+                 suite=None, suite_loc="/x", adapter_ok=True, script=(), mode="k", exclusive=None, exe_path="/x",
+                 exe_file=None):
         self.name, self.exe, self.N, self.retries, self.warmup, self.ign = name, exe, N, retries, warmup, ign
         self.exe_build, self.suite_build = exe_build, suite_build
         self.suite = suite or "S_" + name
@@ -55,6 +56,7 @@ class Spec:
         self.script = list(script)     # letters by start count (mode k) or by invocation number - 1 (mode inv)
         self.mode = mode
         self.exclusive = exclusive
+        self.exe_path, self.exe_file = exe_path, exe_file or exe   # executors are told apart by path + file name
 
     def letter(self, inv, k):
         i = k if self.mode == "k" else inv - 1
@@ -63,13 +65,14 @@ class Spec:
     def describe(self):
         return dict(name=self.name, exe=self.exe, N=self.N, retries=self.retries, warmup=self.warmup, ign=self.ign,
                     exe_build=self.exe_build, suite_build=self.suite_build, suite=self.suite, suite_loc=self.suite_loc,
-                    adapter_ok=self.adapter_ok, script=self.script, mode=self.mode, exclusive=self.exclusive)
+                    adapter_ok=self.adapter_ok, script=self.script, mode=self.mode, exclusive=self.exclusive,
+                    exe_path=self.exe_path, exe_file=self.exe_file)
 
 
 def raw_config(specs):
     executors, suites = {}, {}
     for s in specs:
-        e = executors.setdefault("E_" + s.exe, {"path": "/x", "executable": s.exe})
+        e = executors.setdefault("E_" + s.exe, {"path": s.exe_path, "executable": s.exe_file})
         if s.exe_build:
             e["build"] = [s.exe_build]
         su = suites.setdefault(s.suite, {"gauge_adapter": "RebenchLog" if s.adapter_ok else "NoSuchAdapter",
@@ -95,7 +98,7 @@ class Obs:
 
 
 def run_impl(specs, data_file, scheduler="batch", argv=(), failing_builds=(), seed=None, interrupt_at=None,
-             build_oserror=()):
+             build_oserror=(), run_filter=None):
     """one real session; returns what was observed"""
     by_name = {s.name: s for s in specs}
     obs = Obs()
@@ -166,7 +169,7 @@ def run_impl(specs, data_file, scheduler="batch", argv=(), failing_builds=(), se
     session._pre_call = pre_call
     try:
         ses = session.run_session(raw_config(specs), script, data_file, argv=list(argv), scheduler=scheduler,
-                                  build_script=build_script, seed=seed, on_runs=on_runs)
+                                  build_script=build_script, seed=seed, on_runs=on_runs, run_filter=run_filter)
     finally:
         RunId.add_data_point, rexec.Executor.execute_run, RunId.report_run_failed = o_add, o_exec, o_failed
         rexec.random.choice = o_choice
@@ -181,7 +184,7 @@ def build_ids(specs):
     """(text, location) -> small number, in a fixed order"""
     ids = {}
     for s in specs:
-        for b in ((s.exe_build, "/x"), (s.suite_build, s.suite_loc)):
+        for b in ((s.exe_build, s.exe_path), (s.suite_build, s.suite_loc)):
             if b[0] and b not in ids:
                 ids[b] = len(ids) + 1
     return ids
@@ -197,7 +200,7 @@ def world_term(specs, order, faulty=False, builds=True, failing_builds=(), exes=
         s = by_name[name]
         bl = []
         if s.exe_build:
-            bl.append(ids[(s.exe_build, "/x")])
+            bl.append(ids[(s.exe_build, s.exe_path)])
         if s.suite_build:
             bl.append(ids[(s.suite_build, s.suite_loc)])
         descs.append("{| d_cfg := {| r_invocations := %s; r_retries := %s; r_warmup := %s; r_ignore_timeouts := %s |}; "
